@@ -293,6 +293,16 @@ func isPkgInit(f *ssa.Function) bool {
 	return f.Name() == "init" && f.Synthetic == "package initializer"
 }
 
+func countUnlisted(cs []Counterexample) int {
+	n := 0
+	for _, c := range cs {
+		if c.Known == "" {
+			n++
+		}
+	}
+	return n
+}
+
 // RunEntry explores all paths of the harness entry function.
 func (ex *Exec) RunEntry(name string) *EntryResult {
 	start := time.Now()
@@ -325,6 +335,12 @@ func (ex *Exec) RunEntry(name string) *EntryResult {
 	for len(work) > 0 {
 		s := work[len(work)-1]
 		work = work[:len(work)-1]
+		// enough confirmed-to-be-replayed counterexamples: the entry is red whatever the remaining paths
+		// say; stop exploring (recorded, so that a clean run can never be the result of this cut)
+		if nUnlisted := countUnlisted(res.CEX); nUnlisted >= 8 && res.Paths > 200 {
+			res.StoppedAfterViolations = len(work) + 1
+			break
+		}
 		if !ex.deadline.IsZero() && time.Now().After(ex.deadline) {
 			res.Aborted++
 			res.Aborts = append(res.Aborts, fmt.Sprintf("time limit reached with %d states pending", len(work)+1))
